@@ -434,6 +434,7 @@ func (fr *Frame) callSiteChecks(st *State, cc *ssa.CallCommon, args []Term, in s
 		} else {
 			blk := in.Block()
 			env.lookup = func(nm string) (SpecVal, bool) { return fr.lookupLocal(nm, blk, st, nil) }
+			env.lookupAddr = fr.lookupLocalAddr
 		}
 		for i, nm := range names {
 			// positional names always; the callee's parameter name only if it does not
